@@ -30,7 +30,7 @@ from mc.checks import minviol
 PROPERTY = "C14"
 LEVEL = "model_checking"
 RULE = (
-    "BFS over all call sequences of length <= D (D=3 quick, 4 thorough) from an alphabet of 22 walker calls "
+    "BFS over all call sequences of length <= D (D=3 quick, 4 thorough) from an alphabet of 23 walker calls "
     "(8 of them fail) on one environment, at most 2 failing calls per history; every call's outcome is "
     "compared with the same call alone on a fresh environment; histories are extended from one representative "
     "per canonical walker state (per first call); non-trivial history = contains a failing call followed by "
@@ -103,6 +103,7 @@ CALLS = [
     ("rq(eq,failing-objects-set)!", "rq", "eq", "broken", True),
     ("eval(eev,s_missing)!", "ev", "eev", "s_missing", True),
     ("eval(eev,s_ok)", "ev", "eev", "s_ok", False),
+    ("eval(eev,s_alt)", "ev", "eev", "s_alt", False),
     ("eval(eev2,s_ok)", "ev", "eev2", "s_ok", False),
 ]
 FAILS = [c[4] for c in CALLS]
@@ -143,6 +144,7 @@ class World:
         E = ctx.e
         self.states = {
             "s_ok": up.model.UPState({E(P): em.TRUE(), E(Q(A1)): em.FALSE(), E(Q(A2)): em.TRUE(), E(K): em.Int(1)}, self.prob),
+            "s_alt": up.model.UPState({E(P): em.FALSE(), E(Q(A1)): em.TRUE(), E(Q(A2)): em.TRUE(), E(K): em.Int(5)}, self.prob),
             "s_missing": up.model.UPState({E(P): em.TRUE(), E(Q(A2)): em.TRUE(), E(K): em.Int(1)}, self.prob),
         }
         self.remover = ExpressionQuantifiersRemover(env)
@@ -388,4 +390,4 @@ def replay(case):
     if dev is None:
         return []
     sub, mh, what = classify(hist, dev, ref)
-    return [("%s|%s" % (sub, hist_label(mh)), what)]
+    return minviol.filter_replay(case, [("%s|%s" % (sub, hist_label(mh)), what)])
